@@ -538,6 +538,9 @@ func generate(prop, tier string, r *rand.Rand, idx int) any {
 				if n.Settings[i].Form == "opt" && r.IntN(5) == 0 {
 					n.Settings[i].Plain = true // handed to the constructor as a plain func(*BaseNode)
 				}
+				if n.Settings[i].Form == "opt" && r.IntN(6) == 0 {
+					n.Settings[i].Nest = true // applying this option builds another node on the side
+				}
 			}
 		}
 	}
@@ -1380,6 +1383,14 @@ func (g *gen) anyNode(action string) *NodeSpec {
 		} else if n.Kind == "func" && n.style(1) == 'R' && n.style(2) == 'R' && g.chance(0.25) {
 			// the exec function hands an error Result to post (nil error): still a successful run
 			n.Visits[0].Exec = []Outcome{{Fail: "errres"}}
+		} else if n.retryable() && hasPhase(n, 1) && n.config().Retries >= 2 && g.chance(0.4) {
+			// the run succeeds on a later attempt: some attempts fail, then one succeeds
+			k := 1 + g.r.IntN(n.config().Retries-1)
+			n.Visits[0].Exec = nil
+			for a := 0; a < k; a++ {
+				n.Visits[0].Exec = append(n.Visits[0].Exec, Outcome{Fail: pick(g.r, failKinds)})
+			}
+			n.Visits[0].Exec = append(n.Visits[0].Exec, Outcome{Pay: g.pay()})
 		} else if n.hasFallback() && hasPhase(n, 1) && g.chance(0.4) {
 			// the run succeeds through the fallback: every attempt fails, the fallback recovers
 			b := 1
@@ -1476,6 +1487,19 @@ func addDecoys(sc *Scn, r *rand.Rand) {
 
 func genC17(prop, tier string, r *rand.Rand) *Scn {
 	sc := genC17base(prop, tier, r)
+	if r.IntN(8) == 0 {
+		// a Result-style prep function answering with an error Result (and a nil
+		// Go error): exec and post are told the same, nothing is wrapped twice
+		for _, n := range sc.Nodes {
+			if n.Kind == "func" && n.style(0) == 'R' && hasPhase(n, 0) && n.FnForm != "hand" {
+				for v := range n.Visits {
+					if n.Visits[v].Prep.Fail == "" && r.IntN(2) == 0 {
+						n.Visits[v].Prep.Pay = "erresult"
+					}
+				}
+			}
+		}
+	}
 	addDecoys(sc, r)
 	if r.IntN(6) == 0 {
 		// payloads are handed on unchanged also when the context ends meanwhile:
@@ -1953,6 +1977,11 @@ func genC11(prop, tier string, r *rand.Rand) *Scn {
 				n.Visits[0].Items[i].Exec[a].SleepMs = 0
 			}
 		}
+	}
+	if r.IntN(6) == 0 {
+		// a post that fails: called once all the same - a cancelled context is no
+		// licence to call it again
+		n.Visits[0].Post.Fail = pick(r, failKinds)
 	}
 	g.sc.Ctx.Kind = "cancel"
 	switch r.IntN(7) {
